@@ -182,12 +182,17 @@ func sortedEqual(a, b []string) bool {
 	return strings.Join(x, "\x00") == strings.Join(y, "\x00")
 }
 
-var c11Big = []string{"a", "a.txt", "a/b", "a/c/d", "a0", "b", "b/x", "dir/y.z", "d/1", "d/2", "d/3", "e", "g/x", "h", "uni/é", "uni/☃.txt", "ab/ab/ab", "x//y", "a.b.c", "zz", "a/", "d/", "uni/", "a/c/", "v1/x", "v10/y", "v1-rc/z", "logs/2024", "logs/2024-01/x", c11Long1, c11Long2} // incl. "folder placeholder" objects (memory store only)
+var c11Big = []string{"a", "a.txt", "a/b", "a/c/d", "a0", "b", "b/x", "dir/y.z", "d/1", "d/2", "d/3", "e", "g/x", "h", "uni/é", "uni/☃.txt", "ab/ab/ab", "x//y", "a.b.c", "zz", "a/", "d/", "uni/", "a/c/", "v1/x", "v10/y", "v1-rc/z", "logs/2024", "logs/2024-01/x", c11Long1, c11Long2, c11Long3, c11Long4} // incl. "folder placeholder" objects (memory store only)
 var c11BigFile = []string{"a.txt", "a/b", "a/c/d", "a0", "b/x", "dir/y.z", "d/1", "d/2", "d/3", "e", "g/x", "h", "uni/é", "uni/☃.txt", "ab/ab/ab", "a.b.c", "zz",
-	"v1/x", "v10/y", "v1-rc/z", "logs/2024", "logs/2024-01/x", c11Long1, c11Long2}
+	"v1/x", "v10/y", "v1-rc/z", "logs/2024", "logs/2024-01/x", c11Long1, c11Long2, c11Long3, c11Long4}
 
 // directory names that are string prefixes of each other (v1/, v10/, v1-rc/) and names longer than
 // 127 bytes (a page cursor is the last name of the page)
+// names of more than 1024 bytes sharing a directory path of 1003 bytes (components of 250 bytes, so
+// that the file store can hold them): a page may end on a collapsed prefix longer than 1024 bytes
+var c11LongDir = strings.Repeat("p", 250) + "/" + strings.Repeat("q", 250) + "/" + strings.Repeat("r", 250) + "/" + strings.Repeat("s", 250)
+var c11Long3 = c11LongDir + "/" + strings.Repeat("a", 30) + "/x"
+var c11Long4 = c11LongDir + "/" + strings.Repeat("b", 30)
 var c11Long1 = "long/" + strings.Repeat("n", 130)
 var c11Long2 = strings.Repeat("m", 128) + "/p"
 
@@ -347,12 +352,47 @@ func runC11(r *Run) {
 	if bucket, ok = mkBucket(names); !ok {
 		return
 	}
+	if d.n(3) == 0 {
+		// an upload that the file store cannot hold (a path component of 300 bytes): where it
+		// fails it must leave nothing behind that a listing shows; where it succeeds (memory
+		// store) it is an object like any other
+		ghost := "ghost/" + strings.Repeat("g", 300)
+		op := gOp{Kind: "Upload", Proto: "media", Up: upSpec{Bucket: bucket, Name: ghost, Content: []byte("g"), ContentType: "text/plain"}}
+		resp := execG(w, op)
+		if ok2xx(resp.Status) {
+			if k, msg := m.step(op, resp); k != "" {
+				r.Fail(k, "", "%s", msg)
+				return
+			}
+			names = append(names, ghost)
+			sort.Strings(names)
+		} else {
+			r.Probe("c11.failed_upload_of_unrepresentable_name")
+		}
+	}
 	for q := 0; q < 5 && !r.Failed(); q++ {
-		dd := record(r.T.S("prog.0"), 8)
+		dd := record(r.T.S("prog.0"), 12)
 		src := names[dd.n(len(names))]
 		prefix := src[:dd.n(len(src)+1)]
-		if dd.n(6) == 0 {
+		var slashes []int
+		for i := 0; i < len(src); i++ {
+			if src[i] == '/' {
+				slashes = append(slashes, i)
+			}
+		}
+		switch dd.w(6, 1, 1, 1, 3) {
+		case 1:
 			prefix = "nomatch"
+		case 2:
+			prefix = "nosuch/" // a "directory" no object lives in
+		case 3:
+			if len(slashes) > 0 {
+				prefix = src[:slashes[0]+1] + "nosuch/x" // ... below a directory that exists
+			}
+		case 4:
+			if len(slashes) > 0 {
+				prefix = src[:slashes[dd.n(len(slashes))]+1] // exactly a directory of the name
+			}
 		}
 		delim := []string{"/", "", ".", "ab", "//"}[dd.w(5, 3, 2, 1, 1)]
 		mr := 1 + dd.n(len(names)+1)
